@@ -669,6 +669,54 @@ def identical_components(out1, out2):
     return [(n, v) for n, v in c1 if n in c2 and same(v, c2[n])]
 
 
+CONFIRM_ALT_SEEDS = 12
+CONFIRM_ROUNDS = 12
+
+
+def confirm_seed_dependence(runner, s, ident):
+    """A released component may carry an atom (a mean clipped onto its bound, an integer-valued count, an empty bin), so
+    two unseeded runs CAN coincide on it.  What the property forbids is that the component is a FUNCTION of the global
+    seed.  That hypothesis predicts: the value at seed s is always v(s) and at another seed s' always v(s').  We look for
+    an s' with v(s') ≠ v(s) and then alternate s, s', s, s', … CONFIRM_ROUNDS times; a component is kept (reported) only if
+    every run reproduces its seed's value.  For OS-entropy output the chance of that pattern is ≤ (p_a·p_b)^rounds ≤
+    4^-rounds whatever the atoms are; for globally-seeded output it is certain.  A component for which no s' changes the
+    value is constant over our sample (saturated / noise-free) and is dropped: it shows no dependence on the seed."""
+    def run_at(seed):
+        np.random.seed(seed)
+        random.seed(seed)
+        return dict(components(runner(None)))
+    kept = []
+    try:
+        with warnings.catch_warnings():
+            warnings.simplefilter("ignore")
+            alt = {}
+            for j in range(1, CONFIRM_ALT_SEEDS + 1):
+                s2 = (s * 2654435761 + 97 * j + 1) % (2 ** 31 - 1)
+                if s2 == s:
+                    continue
+                c = run_at(s2)
+                for name, v in ident:
+                    if name not in alt and name in c and not same(v, c[name]):
+                        alt[name] = (s2, c[name])
+                if len(alt) == len(ident):
+                    break
+            for name, v in ident:
+                if name not in alt:
+                    continue
+                s2, v2 = alt[name]
+                ok = True
+                for _ in range(CONFIRM_ROUNDS):
+                    a, b = run_at(s), run_at(s2)
+                    if not (name in a and name in b and same(a[name], v) and same(b[name], v2)):
+                        ok = False
+                        break
+                if ok:
+                    kept.append((name, v))
+    except Exception:  # noqa - a crash here was already reported by the two primary runs; never alarm on it
+        return kept
+    return kept
+
+
 def blackbox_one(entry, variant, runner, group, s):
     """-> (list of (signature, what) failures for one global seed, number of components, crash text or None)"""
     fails = []
@@ -693,7 +741,10 @@ def blackbox_one(entry, variant, runner, group, s):
     except Exception as e:  # noqa - an unexpected exception of the library: reported per case, never an abort
         return fails, 0, f"{type(e).__name__}: {str(e)[:200]}"
     comps = components(out1)
-    for name, vals in identical_components(out1, out2):
+    ident = identical_components(out1, out2)
+    if ident:
+        ident = confirm_seed_dependence(runner, s, ident)
+    for name, vals in ident:
         fails.append((sig_for(entry, variant, "reproducible-under-global-seed", name),
                       f"{entry} [{variant}] with random_state=None: two runs after np.random.seed({s}); random.seed({s}) "
                       f"returned the same {name} = {str(vals[:4])[:100]}" + ("…" if len(vals) > 4 else "")))
